@@ -57,8 +57,11 @@ import os
 import random
 import re
 import shutil
+import sys
+import time
 
-import vlib
+sys.path.insert(0, os.path.dirname(os.path.dirname(os.path.abspath(__file__))))
+import vlib  # noqa: E402
 
 MAX = 23
 LOW = [0, 1, 2, 3, 4, 5]
@@ -420,3 +423,21 @@ def thread_sequence(trace_path, tid):
             else:
                 seq.append([t, n])
     return seq
+
+
+if __name__ == "__main__":
+    # stand-alone run of the C04 half (the lead's C04 check calls run_c04_events itself):
+    #   python3 tools/families/events.py [quick|thorough]        (VERIF_SEED, VERIF_REPO as for ./check)
+    tier = sys.argv[1] if len(sys.argv) > 1 else "quick"
+    c = vlib.Ctx("C04", tier, int(os.environ.get("VERIF_SEED", "1") or "1"))
+    try:
+        viol, cov = run_c04_events(c)
+    except vlib.Inconclusive as e:
+        print("INCONCLUSIVE C04-events: %s" % e)
+        sys.exit(2)
+    for v in viol:
+        print("C04-events violation clauses=%s tags=%s b=%s schedule=%s" % (v["clauses"], v["tags"], v["b"], json.dumps(v["schedule"])[:300]))
+    print("C04-events: %d violation(s) (%d untagged), divergences=%d, traces=%d, lines=%d, states=%d wall=%.1fs" % (
+        len(viol), len([v for v in viol if not v["tags"]]), cov["divergences"], cov["traces_validated_against_impl"],
+        cov["trace_lines"], cov["states"], time.time() - c.t0))
+    sys.exit(1 if [v for v in viol if not v["tags"]] else 0)
